@@ -80,7 +80,10 @@ func NewUser(name string, hash []byte, admin bool, privileges map[string][]Privi
 		for _, p := range privileges {
 			mask |= p
 		}
-		ps[clean] = mask
+		// Several resources may clean to the same path (/a and /a/): they are one resource,
+		// the user holds the privileges of all of them (assigning here would keep whichever
+		// entry the random map iteration visits last).
+		ps[clean] |= mask
 	}
 	// Make our own copy of the hash
 	h := make([]byte, len(hash))
